@@ -11,7 +11,7 @@ start date against a window of end dates, 1000 month offsets ...); failures carr
 ['one', ...] case accepted by check()."""
 import datetime
 
-from ..core import Sub, fail, isnum, enc, lit
+from ..core import WholeFloats, Sub, fail, isnum, enc, lit
 
 D = datetime.date
 DT = datetime.datetime
@@ -717,4 +717,18 @@ class EdateDays(YearBlocks):
         return out
 
 
-SUBS = [Ymd(), Weekday(), Time(), IsoText(), LowYears(), Pairs(), Deltas(), EdateLong(), EdateDays()]
+class DateWholeFloats(WholeFloats):
+    name = 'c14.whole_floats'
+    TEMPLATES = [
+        ('YEAR(DATE({0},{1},{2}))*10000+MONTH(DATE({0},{1},{2}))*100+DAY(DATE({0},{1},{2}))', [(2020, 2, 29), (1900, 3, 1), (99, 12, 31), (9999, 12, 31)]),
+        ('HOUR(TIME({0},{1},{2}))*10000+MINUTE(TIME({0},{1},{2}))*100+SECOND(TIME({0},{1},{2}))', [(10, 4, 11), (0, 0, 0), (23, 59, 59)]),
+        ('DATE(2020,1,31)+{0}', [(1,), (30,)]),
+        ('EDATE(DATE(2020,1,31),{0})', [(1,), (-2,), (13,)]),
+        ('WEEKDAY(DATE(2020,1,31),{0})', [(1,), (2,), (3,), (4,)]),
+        ('DAYS({0},{1})', [(44000, 43000)]),
+        ('DATEDIF({0},{1},"m")', [(43000, 44000)]),
+        ('YEAR({0})', [(44000,), (61,)]),
+    ]
+
+
+SUBS = [Ymd(), Weekday(), Time(), IsoText(), LowYears(), Pairs(), Deltas(), EdateLong(), EdateDays(), DateWholeFloats()]
